@@ -106,24 +106,24 @@ for ST, HANDLE, TG in (
 ):
     cls(ST, fields={"_handle": "opt obj " + HANDLE, "_lock": "obj " + HANDLE.split(":")[0] + ":Lock"}, ghost={"g_live": "int"},
         lock_protected={"_lock": ["_handle", "g_live"]},
-        monitor_inv={"_lock": [("SingleTask.at-most-one", "self.g_live == (1 if (self._handle is not None and not self._handle.cancelled) else 0)", "C07,C16")]})
-    fn(ST + ".__init__", params={}, ensures=[("SingleTask.init", "self._handle is None and self.g_live == 0", "C07,C16")], props=("C07", "C16"))
+        monitor_inv={"_lock": [("SingleTask.at-most-one", "self.g_live == (1 if (self._handle is not None and not self._handle.cancelled) else 0)", "C07,C16,C15")]})
+    fn(ST + ".__init__", params={}, ensures=[("SingleTask.init", "self._handle is None and self.g_live == 0", "C07,C16,C15")], props=("C07", "C16", "C15"))
     fn(ST + ".restart", params={"task_group": "obj " + TG, "action": ACTION},
        requires=[("restart.pre.entered", "True" if "asyncio" in ST else "task_group._nursery is not None")] ,
        ensures=[
            # exactly one timer afterwards: the previous one (if any) cancelled, one new task that runs `action`
-           ("C07.single.restart.one-live", "self.g_live == 1", "C07,C16"),
-           ("C07.single.restart.spawned", "n_emitted('spawned') == 1 and runs_action(emitted('spawned')[0], action)", "C07,C16"),
-           ("C07.single.restart.cancels-at-most-one", "n_emitted('cancelled') <= 1", "C07,C16"),
+           ("C07.single.restart.one-live", "self.g_live == 1", "C07,C16,C15"),
+           ("C07.single.restart.spawned", "n_emitted('spawned') == 1 and runs_action(emitted('spawned')[0], action)", "C07,C16,C15"),
+           ("C07.single.restart.cancels-at-most-one", "n_emitted('cancelled') <= 1", "C07,C16,C15"),
        ],
-       props=("C07", "C16"))
+       props=("C07", "C16", "C15"))
     fn(ST + ".stop", params={},
        ensures=[
-           ("C07.single.stop.none-live", "self.g_live == 0 and self._handle is None", "C07,C16"),
-           ("C07.single.stop.cancels-at-most-one", "n_emitted('cancelled') <= 1", "C07,C16"),
-           ("C07.single.stop.spawns-nothing", "n_emitted('spawned') == 0", "C07,C16"),
+           ("C07.single.stop.none-live", "self.g_live == 0 and self._handle is None", "C07,C16,C15"),
+           ("C07.single.stop.cancels-at-most-one", "n_emitted('cancelled') <= 1", "C07,C16,C15"),
+           ("C07.single.stop.spawns-nothing", "n_emitted('spawned') == 0", "C07,C16,C15"),
        ],
-       props=("C07", "C16"))
+       props=("C07", "C16", "C15"))
 
 
 # ------------------------------------------------------------------------------------------------
